@@ -246,6 +246,29 @@ func specialPlans(rng *rand.Rand, cfg Cfg) []HostilePlan {
 				Flood:  4000, FloodReqs: [][]byte{keepAlive, getParam, frameBytes(1, rtcpRR())}, FloodDrain: dr, Silent: true, Drain: true})
 		}
 	}
+	// peers that write but never read: many pipelined requests with large answers (DESCRIBE of a ~100 KB
+	// description), a tiny receive buffer — the server's writes block and only its write deadline ends them
+	{
+		var pipe []byte
+		for i := 0; i < 300; i++ {
+			pipe = append(pipe, (&RawReq{Method: "DESCRIBE", URL: baseURL(cfg, bigPath), Headers: hdr(100 + i)}).Bytes()...)
+		}
+		plans0 = append(plans0,
+			HostilePlan{Label: "noread-pipeline-plain", SmallRcv: true, Chunks: [][]byte{pipe}, Silent: true, Drain: false},
+			HostilePlan{Label: "noread-pipeline-http", SmallRcv: true, B64: true, Chunks: [][]byte{pipe}, Silent: true, Drain: false},
+			HostilePlan{Label: "noread-pipeline-ws", SmallRcv: true, WS: true, Chunks: [][]byte{pipe}, Silent: true, Drain: false},
+			HostilePlan{Label: "noread-pipeline-after-play", SmallRcv: true, StallAfter: 3,
+				Chunks: [][]byte{setupTCP(1, 0, false), setupTCP(2, 1, true), play(3), pipe}, Silent: true, Drain: true},
+			HostilePlan{Label: "noread-pipeline-after-play-ws", SmallRcv: true, WS: true, StallAfter: 3,
+				Chunks: [][]byte{setupTCP(1, 0, false), setupTCP(2, 1, true), play(3), pipe}, Silent: true, Drain: true},
+			HostilePlan{Label: "noread-pipeline-after-play-http", SmallRcv: true, B64: true, StallAfter: 3,
+				Chunks: [][]byte{setupTCP(1, 0, false), setupTCP(2, 1, true), play(3), pipe}, Silent: true, Drain: true},
+			HostilePlan{Label: "noread-play-only", SmallRcv: true, StallAfter: 3,
+				Chunks: [][]byte{setupTCP(1, 0, false), setupTCP(2, 1, true), play(3)}, Silent: true, Drain: true},
+			HostilePlan{Label: "noread-pipeline-after-record-tcp", SmallRcv: true, StallAfter: 3,
+				Chunks: [][]byte{announce, recSetup("RTP/AVP/TCP;unicast;interleaved=0-1;mode=record"), record, pipe, frameBytes(0, rtpPacket(96, 1))}, Silent: true, Drain: true},
+		)
+	}
 	// a publisher that announces many codecs and then sends random payloads for each of them
 	{
 		sdp := "v=0\r\no=- 0 0 IN IP4 127.0.0.1\r\ns=x\r\nc=IN IP4 0.0.0.0\r\nt=0 0\r\n" +
@@ -462,6 +485,21 @@ func corpusScenarios() []Scenario {
 			tsp := specialPlans(rand.New(rand.NewPCG(1, 1)), tcfg)
 			sc := Scenario{Name: "scenario-corpus-savp-key-boundaries", Cfg: tcfg}
 			for _, l := range []string{"savp-record-keylen-0", "savp-record-keylen-16", "savp-play-keylen-29", "savp-record-keylen-31"} {
+				for _, p := range tsp {
+					if p.Label == l {
+						sc.Peers = append(sc.Peers, p)
+					}
+				}
+			}
+			return sc
+		}(),
+		{Name: "scenario-corpus-noread", Cfg: cfg, GoodUDP: false, PubBurst: 4, Peers: pick("noread-pipeline-plain", "noread-pipeline-after-play", "noread-pipeline-http")},
+		{Name: "scenario-corpus-noread-ws", Cfg: cfg, GoodUDP: true, PubBurst: 4, Peers: pick("noread-pipeline-ws", "noread-pipeline-after-record-tcp", "noread-play-only")},
+		func() Scenario {
+			tcfg := Cfg{Handler: "full", UDP: false, TLS: true}
+			tsp := specialPlans(rand.New(rand.NewPCG(1, 1)), tcfg)
+			sc := Scenario{Name: "scenario-corpus-noread-tls", Cfg: tcfg, PubBurst: 4}
+			for _, l := range []string{"noread-pipeline-plain", "noread-pipeline-after-play", "noread-pipeline-http"} {
 				for _, p := range tsp {
 					if p.Label == l {
 						sc.Peers = append(sc.Peers, p)
